@@ -15,8 +15,10 @@ TRUSTED_BASE = [
     "hand-written typed model coq/C08/Model.v of raftkvs.tla/raftkvs.go, tied by running the REAL generated archetypes "
     "(harness/cmd/c08 + harness/steplib: real MPCalContext.Run loop, gate FairnessCounter, spec-state resources implementing the "
     "spec's mapping macros) on seeded random schedules and comparing outcome + complete spec state after every step",
-    "deployment resources (relaxed TCP mailboxes, LocalShared variables, timers, failure detector, persistent log) are replaced by "
-    "spec-state resources: that a label is atomic and a link FIFO is C01/C06/C07; per-link FIFO is an explicit hypothesis (cfg_fifo)",
+    "network, failure detector, timers, channels are spec-state resources (that a label is atomic and a link FIFO is C01/C06/C07; per-link "
+    "FIFO is an explicit hypothesis, cfg_fifo); the 12 shared variables are checked in two ways: as spec state, and in `wiring` mode as the "
+    "very LocalShared/persistent resources systems/raftkvs/bootstrap wires for the five archetypes of a server (verif hooks "
+    "bootstrap.VerifServerCtxs, distsys.VerifArchetypeResource)",
     "steplib, raftstep, the Python flattening/hash of the state and the walk generator are test infrastructure",
 ]
 ASSUMPTIONS = [
@@ -25,7 +27,8 @@ ASSUMPTIONS = [
     "(bag_network_refuted)",
     "crash-stop as the spec models it (netEnabled := FALSE; no restart)",
 ]
-RULE = ("cases = corpus/C08/*.json, then seeded adaptive random walks over the real generated archetypes: 1-5 servers x 5 archetypes, "
+RULE = ("cases = corpus/C08/*.json (targeted scenarios: stale leader, old-term entry, Raft Figure 8, deposed leader, split vote, bag reorder; "
+        "each FIFO scenario also in wiring mode = over the resources bootstrap/server.go wires), then seeded adaptive random walks over the real generated archetypes: 1-5 servers x 5 archetypes, "
         "1-3 clients, crashers for a random minority, buffer 2-10, profiles steady/elections/lossy/crash/retry, 100-2000 steps; "
         "the walker picks the next event from the observed Go state, ~5% of the events are chosen to abort (false await). "
         "Non-trivial = the walk saw >= 2 distinct (leader, term) pairs, or a crash, or non-empty queues at >= 2 nodes; distinct by schedule text.")
@@ -61,6 +64,9 @@ def run_fixed(h, case):
         code = R.OUTCOME_CODE.get(outcome, 9)
         d = w.digest()
         steps.append((oev, code, R.hash_digest(d), d))
+        for wv in out.get("wiring") or []:
+            failures.append({"signature": "shared-variable-not-shared:" + wv.split("[")[0],
+                             "what": "deployment wiring (bootstrap/server.go): " + wv, "step": k})
         if outcome in ("error:assert", "error:tlatype", "error:other", "hang"):
             failures.append({"signature": "generated-code-" + outcome.replace(":", "-") + ":" + out["label"],
                              "what": "%s in %s: %s" % (outcome, out["label"], out.get("err", "")[:200]), "step": k})
@@ -68,7 +74,8 @@ def run_fixed(h, case):
             failures.append({"signature": sig, "what": what, "step": k})
         if R.spec_leader_completeness(w) is not None:
             spec_lc += 1
-        if code >= 2 or failures:
+        # a wiring violation alone does not stop the scenario: its consequence (e.g. two leaders) is looked for as well
+        if code >= 2 or any(not f["signature"].startswith("shared-variable-not-shared") for f in failures):
             break
     return w, steps, failures, spec_lc
 
@@ -108,7 +115,15 @@ def run(ctx):
             fixed = [rp["case"]]
         else:
             fixed = corpus()
+        fixed2 = []
         for c in fixed:
+            fixed2.append(c)
+            if not ctx.replay and c["params"].get("fifo") and not c["params"].get("wiring"):
+                # the same scenario over the shared-variable resources wired by systems/raftkvs/bootstrap (deployment wiring)
+                cw = dict(c, params=dict(c["params"], wiring=True), name=str(c.get("name")) + "+wiring")
+                cw.pop("expect", None)
+                fixed2.append(cw)
+        for c in fixed2:
             w, steps, failures, spec_lc = run_fixed(h, c)
             spec_lc_total += spec_lc
             total_steps += len(steps)
@@ -140,6 +155,10 @@ def run(ctx):
                     ctx.notes.append("walk budget reached after %d walks" % k)
                     break
                 params = W.gen_params(rng, ctx.tier)
+                if k % 3 == 2:
+                    params["wiring"] = True          # shared variables = the resources bootstrap/server.go wires up
+                    if ctx.tier != "quick" and k % 6 == 5:
+                        params["persist"] = True     # with the persistence wrappers (badger in a scratch directory)
                 profile = rng.choice(sorted(W.PROFILES))
                 nsteps = rng.randint(lo, hi)
                 r = rng.random()
@@ -161,10 +180,13 @@ def run(ctx):
                                         "leaders_seen": sorted(res.leaders), "first_events": res.intended[:8]})
     finally:
         h.close()
+    t_walk = time.time() - t0
     ctx.extra["input_distribution"] = {"profiles": profiles, "cluster_sizes": sizes, "steps_total": total_steps}
     ctx.extra["label_outcome_coverage"] = dict(sorted(cover.items()))
     ctx.extra["states_where_spec_LeaderCompleteness_as_written_is_false"] = spec_lc_total
+    t1c = time.time()
     check_in_coq(ctx, "C08_cases", coq_cases, "random walk / corpus")
+    ctx.extra["phase_seconds"] = {"go_walks_and_corpus": round(t_walk, 1), "coq_correspondence": round(time.time() - t1c, 1)}
     # the tie broke but the oracle saw no violation yet: spend a fixed budget searching for a failing schedule (DESIGN section 5)
     if ctx.breaks and not ctx.failures and not ctx.replay:
         budget = 30 if ctx.tier == "quick" else 400
